@@ -258,7 +258,9 @@ pub fn c18_all(m: &mut Mon, ctx: &StepCtx, stats: &mut Stats, out: &mut Vec<Viol
             let needs = matches!(c.exec(), Some((STSEI, "burn", _)) | Some((STSEI, "burn_from", _)) | Some((BSEI, "burn_from", _)));
             if needs {
                 stats.check("c18_burn_triggers_check_slashing");
-                let has = o.subtree(c.idx).iter().any(|k| k.is_exec(hub_addr, "check_slashing") && k.ok);
+                // a hub pricing handler (CheckSlashing or any handler that starts with the slashing
+                // check) that runs after the supply change, anywhere later in the same transaction
+                let has = o.calls.iter().skip(c.idx + 1).any(|k| k.ok && matches!(k.exec(), Some((h, v, _)) if h == hub_addr && matches!(v, "check_slashing" | "bond" | "bond_for_st_sei" | "bond_rewards" | "receive")));
                 if !has {
                     viol(out, "C18", "burn_refreshes_hub_rates", ctx.idx, &format!("{}:burn_without_check_slashing", c.exec().map(|e| e.0).unwrap_or("")), "burn without a successful hub CheckSlashing in the same transaction".into());
                 }
